@@ -103,3 +103,6 @@ def streams(ctx):
         return dis
     st2 = Stream("parameter_derivation", pops, oracle=False, model_ops=model_ops, judge=pjudge, timeout=600)
     return [st1, st2] + params_streams.c04_streams(ctx)
+
+
+search = params_streams.params_search
